@@ -944,6 +944,12 @@ class _FunctionInformationCollector(ast.RopeNodeVisitor):
     def _If(self, node):
         self._handle_conditional_node(node)
 
+    def _Try(self, node):
+        self._handle_conditional_node(node)
+
+    def _TryStar(self, node):
+        self._handle_conditional_node(node)
+
     def _While(self, node):
         with self._handle_loop_context(node):
             self._handle_conditional_node(node)
